@@ -39,3 +39,51 @@ def run_probes(prefix):
             r['compiled'] = False; r['messages'].append('a dependency failed to build: ' + p.stderr[-400:])
             r['dep_failed'] = True
     return expect, res
+
+
+def run_probe_bins(prefix):
+    """`cargo build` the probe programs starting with prefix; run those expected to run.
+    returns (expect, {name: {'compiled', 'codes', 'messages', 'ran', 'rc', 'stdout'}})"""
+    expect = json.load(open(os.path.join(PROBES, 'expect.json')))
+    names = sorted(n for n in expect if n.startswith(prefix))
+    cmd = ['cargo', 'build', '--offline', '--keep-going', '--message-format=json']
+    for n in names:
+        cmd += ['--bin', n]
+    p = subprocess.run(cmd, cwd=PROBES, capture_output=True, text=True, env=env_offline(), timeout=3600)
+    res = {n: {'compiled': True, 'codes': [], 'messages': [], 'ran': False, 'rc': None, 'stdout': ''} for n in names}
+    exes, dep_failed = {}, False
+    for line in p.stdout.splitlines():
+        try:
+            m = json.loads(line)
+        except ValueError:
+            continue
+        tgt = m.get('target', {}).get('name')
+        if m.get('reason') == 'compiler-artifact' and tgt in res and m.get('executable'):
+            exes[tgt] = m['executable']
+        if m.get('reason') != 'compiler-message':
+            continue
+        msg = m.get('message', {})
+        if msg.get('level') != 'error':
+            continue
+        if tgt in res:
+            res[tgt]['compiled'] = False
+            code = (msg.get('code') or {}).get('code')
+            if code: res[tgt]['codes'].append(code)
+            res[tgt]['messages'].append(msg.get('message', '')[:200])
+        elif tgt and tgt not in ('probes',):
+            dep_failed = True
+    if dep_failed or (p.returncode != 0 and all(r['compiled'] for r in res.values())):
+        for r in res.values():
+            r['compiled'] = False; r['messages'].append('a dependency failed to build: ' + p.stderr[-400:])
+            r['dep_failed'] = True
+        return expect, res
+    for n in names:
+        if res[n]['compiled'] and n not in exes:
+            res[n]['compiled'] = False; res[n]['messages'].append('no executable produced')
+        if res[n]['compiled']:
+            try:
+                q = subprocess.run([exes[n]], capture_output=True, text=True, timeout=120)
+                res[n].update(ran=True, rc=q.returncode, stdout=q.stdout[-4000:], stderr=q.stderr[-1000:])
+            except subprocess.TimeoutExpired:
+                res[n].update(ran=True, rc=-1, stdout='', stderr='timeout')
+    return expect, res
